@@ -467,6 +467,28 @@ class Unit:
             gen_first=first_line + 1, gen_last=last_line, external_body=fn.external_body,
             n_loops=len(fn.loops)))
 
+    def raw_fn(self, qual, props, file, line, header, contract, body, what):
+        """emit a function assembled by a unit-specific mechanical rule (e.g. a lifted closure).
+        header: signature text; contract: list of (label, kind, text); body: text cut from the source at file:line"""
+        first_line = len(self._flat_lines_so_far())
+        self.emit(header, ('gen', what))
+        clauses = []
+        for kind in ('requires', 'ensures'):
+            cl = [c for c in contract if c[1] == kind]
+            if cl:
+                self.emit('        ' + kind, ('gen', kind))
+                for lab, _, txt in cl:
+                    cid = f"{qual}/{lab}"
+                    self.emit(f"            {one_line(txt)},", ('clause', cid))
+                    clauses.append(dict(id=cid, kind=kind, text=one_line(txt)))
+        self.emit('{', ('gen', what))
+        self.emit(body, ('src', file, line))
+        self.emit('}', ('gen', what))
+        last_line = len(self._flat_lines_so_far())
+        self.functions.append(dict(qual=qual, name=qual.split('::')[-1], owner='', file=file, line=line, end_line=line + body.count('\n'),
+                                   props=list(props), clauses=clauses, sha_src=sha(body), sha_out=sha(body), gen_first=first_line + 1, gen_last=last_line,
+                                   external_body=False, n_loops=0))
+
     def emit_raw(self, text, origin):
         self.chunks.append(Chunk(text, origin))
 
